@@ -414,6 +414,11 @@ pub fn sanitizer_leg(id: &str) -> Option<(&'static str, usize)> {
     }
 }
 
+/// Checks whose thorough tier also runs /verif/miri_leg.sh.
+pub fn miri_leg(id: &str) -> bool {
+    matches!(id, "C12" | "C13")
+}
+
 pub fn worker_stack_bytes(id: &str) -> usize {
     // Sanitizer instrumentation inflates stack frames; stack depth is judged by the normal build.
     if std::env::var("VERIF_SANITIZER_LEG").is_ok() {
